@@ -190,6 +190,28 @@ Theorem C03_encoder_header_is_the_source : forall ty varnames fe ce fa ne,
 Proof. exact SrcHeaderTie.encode_header_tie. Qed.
 Print Assumptions C03_encoder_header_is_the_source.
 
+(* ... and the rest of from_code_data around that header - the unpacking of blocks_to_bytes' result, consts, the additional
+   line put back, from_flags_data, the lines shifted by -first_line_number, from_line_mapping, nlocals = len(varnames) and the
+   code object built under either constructor signature (NotImplementedError for positional-only arguments before 3.8) - is
+   re-translated too (Gen/SrcTail.v): for every configuration and all data, encode_code IS blocks_to_bytes followed by the
+   translated header followed by the translated tail *)
+From PCD Require Gen.SrcTail Proofs.SrcTailTie.
+Theorem C03_encoder_is_blocks_to_bytes_then_the_source_header_and_tail :
+  forall c d code lm0 names varnames cellvars constants,
+  blocks_to_bytes pkey_eqb (fun k => is_str_const (fst k)) (KInner INone, PInner INone)
+     (fun s => (KInner (IStr s), PInner (IStr s))) c (cd_blocks d) (cd_addargs d) (cd_freevars d) (cd_type d)
+  = OK (code, lm0, names, varnames, cellvars, constants) ->
+  encode_code c d =
+  match PCD.Gen.SrcHeader.EncodeHeader.header (cd_type d) varnames
+          (match cd_freevars d with [] => true | _ => false end) (match cellvars with [] => true | _ => false end)
+          (cd_future_annotations d) (cd_nested d) with
+  | Err e => Err e
+  | OK (argcount, posonly, kwonly, fl) =>
+      PCD.Gen.SrcTail.tail c d code lm0 names varnames cellvars constants argcount posonly kwonly fl
+  end.
+Proof. exact SrcTailTie.encode_code_is_the_source. Qed.
+Print Assumptions C03_encoder_is_blocks_to_bytes_then_the_source_header_and_tail.
+
 (* the encoder's tables: FromArgs.__setitem__ (a second, different value at an occupied index raises) and FromArgs.add
    (an override pins the index; a known value keeps its index; a new value is stored at len(table) THROUGH __setitem__, so a
    pinned entry that owns that slot makes it raise), re-translated on every run, are the model's *)
